@@ -56,6 +56,13 @@ func init() {
 			cfg.Sys.CoroutineMaxSize = pick(r, 10, 1000)
 			cfg.Sys.TaskEnqueueDelay = pickDur(r)
 			pol := randPolicy(r, r.Intn(3) == 0)
+			if r.Intn(3) == 0 {
+				pol.PSendSlow = 0.4 // the transports are behind: hand-offs complete a few flushes after they were requested
+			}
+			if r.Intn(4) == 0 {
+				// store errors in the middle of requests: after a request's first transaction has committed, a later one fails
+				pol.PLate, pol.FailBudget = 0.5, 12
+			}
 			s := c.NewSim(cfg, pol)
 			s.now = T0
 			roots := []string{"r0", "r1", "r2", "r3", "r4"}[:1+r.Intn(pick(r, 3, 3, 5))]
